@@ -155,11 +155,13 @@ func c15Scenario(p c15Params) *explore.Scenario {
 		}
 		var fs []explore.Finding
 		entries := 0
+		perHandler := map[string]int{}
 		for _, r := range o.Log("ev") {
 			f := strings.SplitN(r, " ", 3)
 			switch f[0] {
 			case "entry":
 				entries++
+				perHandler[f[1]]++
 				ev := 0
 				if strings.HasSuffix(f[1], ".e1") {
 					ev = 1
@@ -173,6 +175,18 @@ func c15Scenario(p c15Params) *explore.Scenario {
 				if f[2] != "same=true" {
 					fs = append(fs, explore.Finding{Oracle: "line-changed-under-handler", Msg: fmt.Sprintf("handler %s: the line it had edited changed while it was not looking (shared storage)", f[1])})
 				}
+			}
+		}
+		// the first event is sent twice (second time after everybody has returned), the second once: every handler
+		// must have been given each of them that often (a handler that gets another event's line shows up here)
+		for hid, n := range perHandler {
+			want := 2
+			if strings.HasSuffix(hid, ".e1") {
+				want = 1
+			}
+			if n != want {
+				fs = append(fs, explore.Finding{Oracle: "wrong-event-line", Msg: fmt.Sprintf("handler invocation %s: received that event's line %d times, expected %d (some invocation was handed the line of another event)", hid, n, want)})
+				break
 			}
 		}
 		if want := 3 * (p.FG + p.BG + nInt); entries != want {
@@ -226,6 +240,11 @@ func init() {
 					}
 					jobs = append(jobs, ExploreJob("C15", spec, 10*(h.fg+h.bg)))
 				}
+			}
+			// many background handlers: the background dispatch of one event is still starting handlers when the
+			// next event's begins (round-robin default)
+			for _, sh := range []string{"noargs", "tags"} {
+				jobs = append(jobs, ExploreJob("C15", ExploreSpec{Sc: c15Scenario(c15Params{Shape: sh, FG: 0, BG: 24}), Variants: []int{3, 1}, Budgets: []explore.Budget{{0, 0}, {1, 0}}, Cache: true}, 60))
 			}
 			// many handlers in one set (more than any fixed-size worker pool or buffer a dispatcher might use)
 			for _, sh := range []string{"tags", "noargs"} {
